@@ -4,6 +4,7 @@ import (
 	"context"
 	"encoding/json"
 	"fmt"
+	"hash/fnv"
 	"strings"
 	"time"
 
@@ -117,10 +118,12 @@ func c08Instants() [][2]time.Time {
 		s, e := base.In(z), base.Add(36*time.Hour).In(z)
 		out = append(out, [2]time.Time{s, e}, [2]time.Time{s, {}}, [2]time.Time{{}, e})
 	}
+	// instants far from the epoch (beyond what fits nanoseconds in 64 bits): the customary "for ever" end
+	out = append(out, [2]time.Time{time.Date(1600, 1, 1, 0, 0, 0, 0, time.UTC), time.Date(9999, 12, 31, 23, 59, 59, 0, time.UTC)})
 	return out
 }
 
-var c08Texts = []string{"a", " a<b&c ", "", "é", `x]]>y "q" 'r'`, "l1\r\nl2\t"}
+var c08Texts = []string{"a", " a<b&c ", "", "é", `x]]>y "q" 'r'`, "l1\r\nl2\t", "\U0001F382 \U00020BB7 e\u0301"}
 
 // spellings of an XML content type a conformant client may send (media types and parameter names are
 // case-insensitive, charset values too; parameter values may be quoted)
@@ -361,7 +364,34 @@ type c08BCase struct {
 	ExplicitNo bool             `json:"explicit_negate_no"`
 }
 
+// bVariant picks, by a hash of the reference request, how a direction-B request travels: with its body length
+// not announced (chunked), and / or to a handler mounted under the prefix "/dav/" (written with its trailing
+// slash) with every path of the request below it.
+func bVariant(ref interface{}) (chunked, mount bool) {
+	h := fnv.New32a()
+	h.Write([]byte(js(ref)))
+	v := h.Sum32()
+	return v%3 == 1, v%5 == 2
+}
+
+func prefixAll(l []string, pfx string) []string {
+	if l == nil {
+		return nil
+	}
+	out := make([]string, len(l))
+	for i, s := range l {
+		out[i] = pfx + s
+	}
+	return out
+}
+
 func c08JudgeB(c c08BCase) (clause, detail string) {
+	chunked, mount := bVariant(&c.Ref)
+	pfx, hprefix := "", ""
+	if mount {
+		pfx, hprefix = "/dav", "/dav/"
+		c.Ref.Hrefs = prefixAll(c.Ref.Hrefs, pfx)
+	}
 	body := indep.Render(indep.CalReportEl(&c.Ref, c.ExplicitNo), c.Style)
 	// the generated document must be conformant according to the independent reader
 	if chk, err := indep.ReadCalReport(body); err != nil {
@@ -373,10 +403,10 @@ func c08JudgeB(c c08BCase) (clause, detail string) {
 			return "generator-bug", fmt.Sprintf("writer/reader disagree: %s vs %s", js(chk), js(&ref))
 		}
 	}
-	l := c12LayoutFor("")
+	l := c12LayoutFor(pfx)
 	b := &harness.CalBackend{Principal: l.Principal, HomeSet: l.HomeSet, Calendars: []caldav.Calendar{{Path: l.Coll1}},
-		Objects: []caldav.CalendarObject{{Path: "/u/c/k1/o1.ics", ETag: "e", Data: harness.SampleCalendar("1", "s")}}}
-	resp := harness.Serve(&caldav.Handler{Backend: b}, harness.Req{Method: "REPORT", Path: l.Coll1, Header: map[string]string{"Content-Type": xmlContentTypes[len(body)%len(xmlContentTypes)], "Depth": "1"}, Body: string(body)})
+		Objects: []caldav.CalendarObject{{Path: pfx + "/u/c/k1/o1.ics", ETag: "e", Data: harness.SampleCalendar("1", "s")}}}
+	resp := harness.Serve(&caldav.Handler{Backend: b, Prefix: hprefix}, harness.Req{Method: "REPORT", Path: l.Coll1, Chunked: chunked, Header: map[string]string{"Content-Type": xmlContentTypes[len(body)%len(xmlContentTypes)], "Depth": "1"}, Body: string(body)})
 	if resp.Panic != "" {
 		return "panic", resp.Panic
 	}
